@@ -241,17 +241,17 @@ func constArgsAll(x *e2Ctx, args []ssa.Value, d int) string {
 type e2Ctx struct {
 	// rendering options used by E6 (builders): name φs by their variable, show call arguments
 	namedPhis, callArgs, fullArgs bool
-	c       *Ctx
-	fn      *ssa.Function
-	lex     map[ssa.Value]bool // values that denote the tracked Lexer
-	enc     bool
-	subst   map[string]string // callee param symx -> caller expression (encoders)
-	depth   int
-	ipdom   map[*ssa.BasicBlock]*ssa.BasicBlock
-	visited map[*ssa.BasicBlock]int
-	undec   []string
+	c                             *Ctx
+	fn                            *ssa.Function
+	lex                           map[ssa.Value]bool // values that denote the tracked Lexer
+	enc                           bool
+	subst                         map[string]string // callee param symx -> caller expression (encoders)
+	depth                         int
+	ipdom                         map[*ssa.BasicBlock]*ssa.BasicBlock
+	visited                       map[*ssa.BasicBlock]int
+	undec                         []string
 	// decoder: mapping of callee receiver to caller cell
-	root string
+	root     string
 	phiStack []*ssa.Phi
 }
 
